@@ -5,6 +5,38 @@ import json, os
 HERE = os.path.dirname(os.path.dirname(os.path.abspath(__file__)))
 
 CHECKS = {
+    "C01": dict(
+        level="exploration",
+        text="GoTypes.tla is the type grammar as a construction state machine (leaf, then ptr/slice/array/map/iface/struct-with-tag-"
+             "options/embedding steps); TLC enumerates every construction up to 2 (quick) / 3 (thorough) steps and exports it. The "
+             "harness realises each with reflect (plus a catalogue of named marshaler / recursive types), generates values in 6-7 "
+             "deterministic modes and compares Marshal, MarshalIndent and Encoder (no HTML escape) with encoding/json, reaching the "
+             "value directly, through a pointer and through interface{}. Divergences are minimised structurally; the minimal "
+             "construction is the finding's signature and the original cases its recorded extent.",
+        note="exploration: encoding/json is the trusted oracle; the TLA+ spec supplies the enumerated type space, not the byte-level "
+             "semantics. Two type families on which the unchanged encoder is memory-unsafe ([1]T with pointer-shaped T; top-level **X) "
+             "are excluded from comparison and covered by isolated witnesses (known findings).",
+        technique="TLC-enumerated type constructions (GoTypes.tla) realised with reflect; differential encoding against encoding/json with structural minimisation",
+        engine="GoTypes", design="8/C01"),
+    "C03": dict(
+        level="model_checking",
+        text="Every byte sequence any of 7 entry point / option sets returns with err == nil, for every TLC-enumerated type "
+             "construction and value mode (including NaN/Inf in every float position, 20 json.Number payloads and 28 scripted marshaler "
+             "outputs), is run through the JsonText recogniser that TLC model-checks against its declarative grammar and exports as a "
+             "table; it must be accepted and be valid UTF-8 (while normalisation is on), and values encoding/json refuses as "
+             "unrepresentable must produce an error.",
+        note="trusted: TLC, JsonText.tla (third voice encoding/json.Valid), encoding/json's refusal as the definition of unrepresentable.",
+        technique="TLC-exported RFC 8259 recogniser used as a monitor over encoder outputs for TLC-enumerated types and unrepresentable values",
+        engine="JsonText", design="8/C03"),
+    "C04": dict(
+        level="exploration",
+        text="For every TLC-enumerated round-trippable type construction and value mode, Unmarshal(Marshal(v)), a two-document "
+             "Encoder->Decoder stream and Unmarshal(MarshalIndent(v)) must be deeply equal to v, wherever encoding/json's own round "
+             "trip is.",
+        note="exploration: reflect.DeepEqual is the oracle; the value space is the deterministic value modes of the harness (integer "
+             "extremes of every width, floats needing 17 digits, strings with every escape class).",
+        technique="TLC-enumerated type constructions; Marshal/Unmarshal round trip with DeepEqual, filtered by encoding/json's own round trip",
+        engine="GoTypes", design="8/C04"),
     "C05": dict(
         level="model_checking",
         text="JsonText.tla (RFC 8259 pushdown recogniser) is model-checked by TLC against its own declarative grammar on every "
@@ -17,6 +49,17 @@ CHECKS = {
              "in known_findings.json with their recorded extent in findings_extent/C05.json.",
         technique="TLA+ recogniser spec model-checked by TLC; TLC-exported automaton replayed exhaustively into the decoder",
         engine="JsonText", design="8/C05"),
+    "C13": dict(
+        level="model_checking",
+        text="Relations R1 (MarshalIndent = Indent o Marshal for 5 prefix/indent pairs), R2 (Colorize with empty/default/custom scheme "
+             "= plain after removing markers, with and without indent), R3 (UnorderedMap permutes only), R4 (DisableHTMLEscape changes "
+             "only the spelling of < > &), R5 (Encoder.Encode, EncodeContext, MarshalNoEscape, MarshalContext, MarshalWithOption, "
+             "DebugWith = Marshal) and R6 (top level = behind pointer = inside interface{} where encoding/json agrees) are evaluated "
+             "for every TLC-enumerated type construction and value mode.",
+        note="the relations are checked between go-json's own outputs; encoding/json.Indent is the reference Indent (itself matched "
+             "against JsonTransform.tla in C18).",
+        technique="TLC-enumerated type constructions; metamorphic relations between encoder variants with structural minimisation",
+        engine="GoTypes", design="8/C13"),
     "C16": dict(
         level="model_checking",
         text="IntCodec.tla states integer literal semantics on digit sequences (bounds derived by doubling, length-then-lexicographic "
@@ -126,8 +169,10 @@ def main():
 
 NA = {}
 HOOK_COMMITS = ["cb16685"]
-FIX_COMMITS = ["3ba2124", "35e540e", "5d9c0a9", "182cdbb", "c177d40", "4cc9b5c"]
+FIX_COMMITS = ["3ba2124", "35e540e", "5d9c0a9", "182cdbb", "c177d40", "4cc9b5c", "e04537c"]
 ENGINES = [
+    dict(name="GoTypes", path="specs/GoTypes.tla", serves_properties=["C01", "C03", "C04", "C13"],
+         kind_free_text="TLA+ type-construction state machine; TLC enumerates and exports every construction up to a bound"),
     dict(name="StrCodec", path="specs/StrCodec.tla", serves_properties=["C17"],
          kind_free_text="TLA+ token-level model of JSON string escaping/unescaping; TLC laws + table/case export"),
     dict(name="IntCodec", path="specs/IntCodec.tla", serves_properties=["C16"],
